@@ -26,6 +26,7 @@ const (
 	vC14SigLinger   = "tsi1-tagvalue-lingers-after-last-series-dropped"
 	vC14SigResurface = "tsi1-dropped-measurement-tags-resurface-on-recreation"
 	vC14SigGhost    = "tsi1-shard-lists-series-dropped-from-that-shard-only"
+	vC14SigPhantom  = "tsi1-series-tombstone-lost-on-log-replay-after-series-file-compaction"
 	vC14SigDeadlock = "delete-vs-tsi-compaction-deadlock"
 	vC14BigLog      = 1 << 20
 )
@@ -780,7 +781,17 @@ func vC14Run(rt *rapid.T, st *verifkit.Stats) {
 		case k < 92:
 			c.stepReopen()
 		default:
-			c.stepSeriesFileCompact()
+			if c.sfileDeleted && cfg.LogSize != 1 && cfg.LogSize != vC14BigLog {
+				// Known finding: once the series file has been compacted, a deleted series id has no
+				// key any more and LogFile.execSeriesEntry skips its tombstone entry at the next
+				// open; if the insert already sits in an index file the id comes back in the
+				// shard's series id set. It needs a log file size that lets the tombstone stay in
+				// the log (not 1 B, not "never rolls"); excluded by construction for those sizes.
+				st.Exclude(vC14SigPhantom)
+				c.stepSnapshot()
+			} else {
+				c.stepSeriesFileCompact()
+			}
 		}
 		if bed.maxLevel > lvlBefore || len(bed.tsiFiles) > evBefore {
 			// new index files appeared: log->L1 and/or level compactions really ran in this step
